@@ -1,215 +1,4 @@
-From Coq Require Import ZArith List Bool Arith Lia.
-From Texel Require Import Workers.Workers Workers.WorkersLemmas Workers.WorkersInv Workers.WorkersInvProofs Workers.WorkersTac Workers.WorkersJob.
-Import ListNotations.
-Section P.
-Variable N : nat.
-Variable parent : tid -> option tid.
-Hypothesis Htree : tree_ok N parent.
-Notation InvE := (InvE N parent).
-Notation InvJ := (InvJ N).
-Notation lstep := (lstep N parent).
-Notation children := (children N parent).
-Notation helper := (helper N).
-Lemma helper_ne0 : forall c, helper c -> c <> 0.
-Proof. unfold WorkersInv.helper; lia. Qed.
-
-Lemma step_job0 : forall s lb s', InvE s -> InvJ s -> lstep s lb = Some s' -> (0 <= job (th s' O))%Z.
-Proof.
-  intros s lb s' I J H. pose proof (j_job0 _ _ J) as J0.
-  step_inv_fine H; crunch; lia.
-Qed.
-
-Lemma inv_sid : forall s, InvE s -> se (th s O) <= sid s.
-Proof.
-  intros s I. destruct (e_phase _ _ _ I) as (ph & _ & E). destruct ph; simpl in E; lia.
-Qed.
-
-(** in the idle phase no helper holds a job *)
-Lemma idle_nojob : forall s c, InvE s -> InvJ s -> helper c -> sid s = ae (th s O) ->
-  job (th s c) = (-1)%Z.
-Proof.
-  intros s c I J Hc E.
-  destruct (Z.eq_dec (job (th s c)) (-1)) as [|Hne]; auto. exfalso.
-  destruct (j_j1 _ _ J c Hc Hne) as ([H|H] & _).
-  - destruct (e_g1 _ _ _ I c (helper_le _ _ Hc)). lia.
-  - destruct (e_g1 _ _ _ I c (helper_le _ _ Hc)). destruct (e_g2 _ _ _ I c Hc) as (? & ? & ?).
-    destruct (inv_se0 _ _ s I) as (? & ? & ? & ?). pose proof (inv_sid s I).
-    assert (E2 : ae (th s c) = se (th s c)) by lia.
-    destruct (e_a1 _ _ _ I c Hc E2) as (_ & _ & _ & X). congruence.
-Qed.
-
-Lemma step_j1 : forall s lb s', InvE s -> InvJ s -> lstep s lb = Some s' ->
-  forall c, helper c -> job (th s' c) <> (-1)%Z ->
-    (S (se (th s' c)) = sid s' \/ instop (pc (th s' c)) = true) /\
-    (1 <= job (th s' c) <= job (th s' O))%Z.
-Proof.
-  intros s lb s' I J H c Hc.
-  pose proof (j_j1 _ _ J c Hc) as J1. pose proof (j_job0 _ _ J) as J0.
-  pose proof (helper_ne0 c Hc) as Hc0.
-  step_inv_fine H; crunch; use_eqs; cbn [instop] in *; auto; try congruence.
-  all: intros Hne.
-  all: try (destruct (J1 Hne) as (Ha & Hb); split; [auto | lia]; fail).
-  all: try (exfalso; phase_facts' I; apply Hne; apply idle_nojob; auto; lia).
-  all: try (split; [left | ]).
-  all: try match goal with Hq : qu ?s0 (S ?t) = CStart ?j :: _, Hl : Nat.leb (S ?t) N = true |- _ =>
-         first [ apply (e_j2 _ _ _ I (S t) (CStart j) (helper_leb _ _ Hl)); [rewrite Hq; left; auto | right; eauto]
-               | apply (j_start _ _ J (S t) j (helper_leb _ _ Hl)); rewrite Hq; left; auto ] end.
-  all: try match goal with Hpc : pc (th ?s0 (S ?t)) = PFwd (FStart ?j) ?k ?r, Hl : Nat.leb (S ?t) N = true |- _ =>
-         first [ apply (e_j3 _ _ _ I (S t) _ k r (proj1 (Nat.leb_le _ _) Hl) Hpc); right; eauto
-               | apply (j_fwd _ _ J (S t) j k r (proj1 (Nat.leb_le _ _) Hl) Hpc) ] end.
-Qed.
-
-Lemma step_jstart : forall s lb s', InvE s -> InvJ s -> lstep s lb = Some s' ->
-  forall c j, helper c -> In (CStart j) (qu s' c) -> (1 <= j <= job (th s' O))%Z.
-Proof.
-  intros s lb s' I J H c j Hc.
-  pose proof (j_start _ _ J c j Hc) as JS. pose proof (j_job0 _ _ J) as J0.
-  pose proof (helper_ne0 c Hc) as Hc0.
-  step_inv_fine H; crunch; use_eqs; auto.
-  all: try (intros Hin; apply JS; right; exact Hin).
-  all: try (intros Hin; specialize (JS Hin); lia).
-  all: try pcs_facts I.
-  all: try match goal with w : fwd |- _ => destruct w end; cbn [fwd_purge fwd_cmd] in *.
-  all: intros Hin.
-  all: try (apply in_app_or in Hin; destruct Hin as [Hin|[Hin|[]]];
-            try (apply in_purge in Hin; destruct Hin as (Hin & Hpg); try discriminate); auto;
-            try discriminate).
-  all: try (injection Hin as <-).
-  all: try match goal with Hpc : pc (th ?s0 ?t) = PFwd (FStart ?j) ?k ?r |- _ =>
-         first [ apply (j_fwd _ _ J t j k r (Nat.le_0_l _) Hpc)
-               | apply (j_fwd _ _ J t j k r (proj1 (Nat.leb_le _ _) ltac:(eassumption)) Hpc) ] end.
-  all: try (exfalso; pose proof (e_j2 _ _ _ I c (CStart j) Hc Hin (or_intror (ex_intro _ j eq_refl)));
-            destruct (e_g1 _ _ _ I c (helper_le _ _ Hc)); phase_facts' I; lia).
-Qed.
-
-Lemma step_jfwd : forall s lb s', InvE s -> InvJ s -> lstep s lb = Some s' ->
-  forall t j k rest, t <= N -> pc (th s' t) = PFwd (FStart j) k rest -> (1 <= j <= job (th s' O))%Z.
-Proof.
-  intros s lb s' I J H t j k rest Ht.
-  pose proof (j_fwd _ _ J t j k) as JF. pose proof (j_job0 _ _ J) as J0.
-  step_inv_fine H; crunch; use_eqs; eauto; try discriminate.
-  all: intros E; try (injection E as <- <- <-); try (injection E as <- <-).
-  all: try lia.
-  all: try (specialize (JF _ Ht E); lia).
-  all: try (eapply JF; eauto; fail).
-  all: try (inversion E; subst; eapply JF; eauto; fail).
-  all: try (exfalso; pose proof (e_j3 _ _ _ I t _ _ _ Ht E (or_intror (ex_intro _ j eq_refl)));
-            destruct (e_g1 _ _ _ I t Ht); phase_facts' I; lia).
-  all: try match goal with Hq : qu ?s0 (S ?t) = CStart ?j :: _, Hl : Nat.leb (S ?t) N = true |- _ =>
-         apply (j_start _ _ J (S t) j (helper_leb _ _ Hl)); rewrite Hq; left; auto end.
-Qed.
-
-Lemma step_jks : forall s lb s', InvE s -> InvJ s -> lstep s lb = Some s' ->
-  forall c j, helper c -> ctx_of (pc (th s' c)) = Some (KSearch j) -> (1 <= j)%Z.
-Proof.
-  intros s lb s' I J H c j Hc.
-  pose proof (j_ks _ _ J c j Hc) as JK.
-  pose proof (helper_ne0 c Hc) as Hc0.
-  step_inv_fine H; crunch; use_eqs; cbn [ctx_of] in *; auto; try discriminate.
-  intros E; injection E as <-. boolfacts.
-  destruct (j_j1 _ _ J (S t0) Hc Heqb1) as (_ & ?). lia.
-Qed.
-
-(** a queued result at a node that has not entered the stop round of the current search
-    belongs to the current search *)
-Lemma report_current : forall s t j sd f r, InvE s -> InvJ s -> t <= N ->
-  qu s t = CReport j sd f :: r -> se (th s t) = ae (th s O) ->
-  sd = sid s /\ sid s = S (ae (th s O)) /\ (1 <= j)%Z /\ helper f /\ parent f = Some t.
-Proof.
-  intros s t j sd f r I J Ht Hq Hse.
-  pose proof (j_rep _ _ J t Ht) as R. rewrite Hq in R. simpl in R. destruct R as ((R1 & R2 & R3) & _).
-  assert (Hin : In (CReport j sd f) (qu s t)) by (rewrite Hq; left; auto).
-  destruct (e_snd _ _ _ I t _ Ht Hin) as (Hp & Hf).
-  pose proof (e_w3 _ _ _ I f t Hf Hp) as W3. rewrite Hq, acks_cons in W3. simpl in W3.
-  pose proof (inv_child_le _ _ s f t I Hf Hp).
-  destruct (e_g2 _ _ _ I f Hf) as (? & ? & ?).
-  destruct (inv_se0 _ _ s I) as (? & ? & ? & ?).
-  assert (acks f r = 0) by (destruct (acks f r); auto; specialize (W3 ltac:(lia)); lia).
-  split; [lia|]. split; [lia|]. split; auto.
-Qed.
-
-Lemma step_jpsend : forall s lb s', InvE s -> InvJ s -> lstep s lb = Some s' ->
-  forall c j sd f k, helper c -> pc (th s' c) = PSend (CReport j sd f) k ->
-    sd = sid s' /\ S (se (th s' c)) = sid s' /\ (1 <= j)%Z.
-Proof.
-  intros s lb s' I J H c j sd f k Hc.
-  pose proof (j_psend _ _ J c j sd f k Hc) as JP.
-  pose proof (helper_ne0 c Hc) as Hc0.
-  step_inv_fine H; crunch; use_eqs; auto; try discriminate.
-  all: intros E.
-  all: try (exfalso; destruct (JP E) as (_ & ? & _); destruct (e_g1 _ _ _ I c (helper_le _ _ Hc));
-            phase_facts' I; lia).
-  all: injection E as <- <- <- <-; boolfacts.
-  all: match goal with Hq : qu ?s0 (S ?t) = CReport ?j ?sd ?f :: ?r, Hl : Nat.leb (S ?t) N = true |- _ =>
-         pose proof (j_rep _ _ J (S t) (proj1 (Nat.leb_le _ _) Hl)) as R; rewrite Hq in R; simpl in R;
-         destruct R as ((R1 & R2 & R3) & _);
-         destruct (j_j1 _ _ J (S t) Hc ltac:(lia)) as ([Hs|Hs] & _); [|rewrite Heqp in Hs; cbn in Hs; discriminate];
-         destruct (e_g1 _ _ _ I (S t) (proj1 (Nat.leb_le _ _) Hl)); destruct (inv_se0 _ _ s0 I) as (? & ? & ? & ?);
-         destruct (report_current s0 (S t) j sd f r I J (proj1 (Nat.leb_le _ _) Hl) Hq ltac:(lia)) as (? & ? & ? & ? & ?)
-       end.
-  all: repeat split; auto; lia.
-Qed.
-
-Lemma rep_ok_ext2 : forall a a' sv sv' l,
-  (forall j sd f, In (CReport j sd f) l -> a' f = a f) -> sv <= sv' ->
-  rep_ok a sv l -> rep_ok a' sv' l.
-Proof.
-  induction l as [|m l IH]; simpl; auto. intros Ha Hs H.
-  destruct m; try (apply IH; auto; intros; eapply Ha; eauto; fail).
-  destruct H as ((H1 & H2 & H3) & H4). rewrite (Ha j sd from) by auto. repeat split; auto; try lia.
-  apply IH; auto. intros; eapply Ha; eauto.
-Qed.
-
-Lemma step_jrep : forall s lb s', InvE s -> InvJ s -> lstep s lb = Some s' ->
-  forall t, t <= N -> rep_ok (fun f => ae (th s' f)) (sid s') (qu s' t).
-Proof.
-  intros s lb s' I J H t Ht.
-  pose proof (j_rep _ _ J t Ht) as R.
-  step_inv_fine H.
-  all: try pcs_facts I.
-  all: try match goal with w : fwd |- _ => destruct w end; cbn [fwd_purge fwd_cmd] in *.
-  all: try (crunch; use_eqs; try (apply rep_ok_tail in R);
-            (eapply rep_ok_ext; [ | | exact R]; [intros f0; crunch; reflexivity | lia]); fail).
-  (* pushes that leave every ae unchanged *)
-  all: try (apply rep_ok_ext with (a := fun f => ae (th s f)) (sv := sid s);
-            [ intros f0; crunch; reflexivity | crunch; lia | ];
-            crunch; use_eqs; auto;
-            first [ apply rep_ok_app_other; [intros; discriminate | intros; discriminate | ];
-                    first [ exact R | apply rep_ok_purge ]
-                  | idtac ]; fail).
-  (* report pushes *)
-  all: try (apply rep_ok_ext with (a := fun f => ae (th s f)) (sv := sid s);
-            [ intros f0; crunch; reflexivity | crunch; lia | ];
-            crunch; use_eqs; auto; boolfacts;
-            match goal with Hl : Nat.leb (S ?c) N = true |- _ =>
-              pose proof (helper_leb _ _ Hl) as Hc;
-              destruct (e_g2 _ _ _ I (S c) Hc) as (? & ? & ?);
-              first [ destruct (j_psend _ _ J (S c) _ _ _ _ Hc ltac:(eassumption)) as (? & ? & ?)
-                    | (assert (Hj1 : (1 <= job (th s (S c)))%Z)
-                         by (match goal with Hpc : pc (th _ (S c)) = PPoll (KSearch ?j) |- _ =>
-                               pose proof (j_ks _ _ J (S c) j Hc ltac:(rewrite Hpc; reflexivity)); lia end);
-                       destruct (j_j1 _ _ J (S c) Hc ltac:(lia)) as ([Hs|Hs] & _);
-                       [| match goal with Hpc : pc (th _ (S c)) = _ |- _ => rewrite Hpc in Hs; cbn in Hs; discriminate end]) ]
-            end;
-            apply rep_ok_app_report; auto; lia).
-  (* barrier: only the master's ae changes, and the master never sends a result *)
-  - crunch. apply rep_ok_ext2 with (a := fun f => ae (th s f)) (sv := sid s); auto.
-    intros j sd f Hin. destruct (e_snd _ _ _ I t _ Ht Hin) as (_ & Hf).
-    pose proof (helper_ne0 f Hf). crunch; reflexivity.
-  (* STOP_ACK pushes *)
-  - destruct (Nat.eq_dec t t2) as [->|Hne].
-    + crunch. apply rep_ok_app_ack with (a := fun f => ae (th s f)); auto.
-      * crunch; reflexivity.
-      * intros f Hf. crunch; reflexivity.
-    + crunch. apply rep_ok_ext2 with (a := fun f => ae (th s f)) (sv := sid s); auto.
-      intros j sd f Hin. destruct (e_snd _ _ _ I t _ Ht Hin) as (Hp & Hf).
-      crunch; auto; congruence.
-  - destruct (Nat.eq_dec t t2) as [->|Hne].
-    + crunch. apply rep_ok_app_ack with (a := fun f => ae (th s f)); auto.
-      * crunch; reflexivity.
-      * intros f Hf. crunch; reflexivity.
-    + crunch. apply rep_ok_ext2 with (a := fun f => ae (th s f)) (sv := sid s); auto.
-      intros j sd f Hin. destruct (e_snd _ _ _ I t _ Ht Hin) as (Hp & Hf).
-      crunch; auto; congruence.
-Qed.
-End P.
+From Coq Require Import ZArith NArith List.
+From Texel Require Import Chess.Types Chess.Position Chess.PositionInst RevGen.RevGen RevGen.RevRestore RevGen.RevTheorems.
+Local Open Scope N_scope.
+Time Eval vm_compute in (length (genMoves zk0 (successor zk0 kiwiPos (mkMove 0 1 EMPTY)) false), length (genMoves zk0 (successor zk0 kiwiPos (mkMove 0 1 EMPTY)) true)).
